@@ -78,7 +78,7 @@ def coord(draw):
 
 
 PT_KINDS = ["conv", "conv", "conv", "lb", "ub", "plb", "pub", "below_ulp", "above_ulp", "below_rel", "above_rel", "below10", "above10",
-            "mid", "gmean", "near_plb", "near_pub"]
+            "mid", "gmean", "near_plb", "near_pub", "below_abs", "zero"]
 
 
 def make_point(c, kind, t, k, is_log):
@@ -121,6 +121,11 @@ def make_point(c, kind, t, k, is_log):
         return lo * (1 - 1e-9) if is_log else lo - 1e-9 * w
     if kind == "above_rel":
         return hi * (1 + 1e-9) if is_log else hi + 1e-9 * w
+    if kind == "below_abs":
+        # below the lower bound by an absolute amount: for a log coordinate with a small lower bound this is zero or negative
+        return lo - (1e-9 + 1e-3 * t) * min(w, 1e300)
+    if kind == "zero":
+        return 0.0 if lo > 0 else lo - 1e-6 * w  # exactly 0 handed to a positive (possibly log-scaled) coordinate
     if kind == "below10":
         return lo * 0.9 if is_log else lo - 0.1 * w
     if kind == "above10":
